@@ -178,7 +178,7 @@ def wellformed(ctx, prog):
             ev = [e for e in o.st.events if e[0] in ('ITEM', 'REP_BEGIN', 'REP_END')]
             key = '%s|%s' % (t, ','.join('%s=%s' % kv for kv in sorted(summaries.choices(o.st).items())) or 'all')
             n += 1
-            if t in ('minicbor::data::token::Token<\'b>', 'minicbor::data::Tag', 'minicbor::data::IanaTag'):
+            if t in ('minicbor::data::token::Token<\'_>', 'minicbor::data::Tag', 'minicbor::data::IanaTag'):
                 # tokens and bare tags are one head by design (a tag annotates the item that follows), not one item
                 if len([e for e in ev if e[0] == 'ITEM']) == 1:
                     ctx.ok('S-ENC.wf', key)
